@@ -33,7 +33,7 @@ class Node:
 def gen_leaf(rng, counter, parametric=False, pnames=("pa", "pb")):
     counter[0] += 1
     n = rng.randint(1, 3)
-    pins = [f"q{counter[0]}x{i}" for i in range(n)]
+    pins = [f"a{i}" for i in range(n)]          # local names, recurring on every component
     idx = rng.sample(range(n), n)
     if parametric:
         S0 = gen.contractive(rng, n, target=0.4, kind=rng.choice(["general", "reflectionless"]))
